@@ -107,12 +107,37 @@ def build_harness(race=False):
     return out
 
 
+class Crashed(Exception):
+    """The harness process was taken down by the library under test: a Go runtime fatal error (out of memory, stack
+    overflow, ...) or a kill signal - conditions recover() cannot catch.  An outcome of the case, not a broken check."""
+
+
 def vh(binpath, args, timeout=1800, env=None):
     r = subprocess.run([binpath] + [str(a) for a in args], capture_output=True, text=True, timeout=timeout,
                        env=env or os.environ)
+    if r.returncode != 0 and (r.returncode < 0 or "fatal error:" in r.stderr):
+        m = re.search(r"fatal error:[^\n]*", r.stderr)
+        raise Crashed(m.group(0) if m else f"killed by signal {-r.returncode}")
     if r.returncode != 0:
         raise Broken(f"vh {' '.join(map(str, args))} failed ({r.returncode}):\n{r.stdout[-2000:]}{r.stderr[-4000:]}")
     return r.stdout
+
+
+def mark_crash(trace, why):
+    """The harness died while writing `trace`: keep the complete lines (every case's reset line is flushed before the
+    case runs), and record the crash as the outcome of the last case started."""
+    lines = []
+    if os.path.exists(trace):
+        for ln in open(trace, errors="replace").read().split("\n"):
+            try:
+                json.loads(ln)
+            except Exception:
+                break
+            lines.append(ln)
+    if not any('"ev":"reset"' in ln for ln in lines):
+        raise Broken("harness crashed before its first case: " + why)
+    lines.append(json.dumps({"ev": "crash", "e": "panic", "info": why[:200]}))
+    open(trace, "w").write("\n".join(lines) + "\n")
 
 
 # --------------------------------------------------------------------------
@@ -296,7 +321,7 @@ def load_known():
 
 def match_known(pid, v, case):
     for k in load_known():
-        if k.get("status") != "open" or k.get("property") != pid:
+        if k.get("status") != "open" or not re.fullmatch(k.get("property", ""), pid):
             continue
         if k.get("invariant") and not re.fullmatch(k["invariant"], v["inv"]):
             continue
@@ -347,16 +372,26 @@ def handle_violations(ctx, binpath, module, invariants, raw):
         pick |= set(first.values())
         ctx.notes.append(f"{len(todo)} violating cases; re-executed a sample of {len(pick)}")
         todo = [v for i, v in enumerate(todo) if i in pick]
-    casefile = ctx.path(f"confirm-{len(ctx.violations)}-{int(time.time()*1000)%100000}.jsonl")
-    with open(casefile, "w") as f:
-        for v in todo:
-            f.write(v["case"] + "\n")
-    retrace = casefile[:-6] + ".ndjson"
-    try:
-        vh(binpath, ["run-cases", "-cases", casefile, "-out", retrace])
-    except Broken as e:
-        raise Broken("re-execution of violating cases failed: " + str(e)[:1500])
-    again = validate_traces(ctx, module, invariants, [retrace], count=False)
+    # re-execute in one batch; a case that takes the process down does so again: it is marked, and the batch
+    # continues behind it in a fresh process
+    remaining = [v["case"] for v in todo]
+    retraces = []
+    stamp = f"{len(ctx.violations)}-{int(time.time()*1000)%100000}"
+    while remaining:
+        casefile = ctx.path(f"confirm-{stamp}-{len(retraces)}.jsonl")
+        open(casefile, "w").write("\n".join(remaining) + "\n")
+        retrace = casefile[:-6] + ".ndjson"
+        retraces.append(retrace)
+        try:
+            vh(binpath, ["run-cases", "-cases", casefile, "-out", retrace])
+            remaining = []
+        except Crashed as c:
+            mark_crash(retrace, str(c))
+            started = sum(1 for ln in open(retrace) if '"ev":"reset"' in ln)
+            remaining = remaining[max(started, 1):]
+        except Broken as e:
+            raise Broken("re-execution of violating cases failed: " + str(e)[:1500])
+    again = validate_traces(ctx, module, invariants, retraces, count=False)
     confirmed = {(a["inv"], a["case"]) for a in again}
     for v in todo:
         case = v["_case"]
